@@ -379,6 +379,8 @@ func c11Scenarios(thorough bool) []regScn {
 		n("two-keys", []regConn{c(A, 0, true, -1, -1), c(B, 1, false, -1, -1)}, []regCall{{Key: B, AfterJoin: 1, AfterLeft: -1}, {Key: A, AfterJoin: 0, AfterLeft: -1}}),
 		n("send-vs-leave", []regConn{c(A, 0, true, -1, -1)}, []regCall{{Key: A, AfterJoin: 0, AfterLeft: -1}, {Key: "nobody", AfterJoin: -1, AfterLeft: -1}}),
 		n("send-after-leave", []regConn{c(A, 0, true, -1, -1)}, []regCall{{Key: A, AfterJoin: -1, AfterLeft: 0}}),
+		n("refused-left-then-send", []regConn{c(A, 1, false, -1, -1), c(A, 0, false, -1, 0)}, []regCall{{Key: A, AfterJoin: -1, AfterLeft: 1}}),
+		n("refused-left-then-third", []regConn{c(A, 1, false, -1, -1), c(A, 0, false, -1, 0), c(A, 0, false, 1, -1)}, nil),
 		n("refused-then-owner-served", []regConn{c(A, 2, false, -1, -1), c(A, 0, false, -1, 0), c(B, 0, false, -1, -1)}, []regCall{{Key: A, AfterJoin: 0, AfterLeft: -1}}),
 	}
 	if thorough {
@@ -398,7 +400,7 @@ type regCase struct {
 func init() {
 	vc.Register(&vc.Check{
 		ID: "C11", Level: "model_checking", SingleProc: true,
-		Rule: "8 (thorough 10) skeletons of <=6 registry events over <=3 connections and two keys (duplicate-key connect after/racing the owner's join, close then reconnect, close racing a duplicate, two keys, SendActiveMessage racing a leave / after a leave / to an absent key), each under ALL schedules within the deviation bound (2 quick, 3 thorough); " +
+		Rule: "10 (thorough 12) skeletons of <=6 registry events over <=3 connections and two keys (duplicate-key connect after/racing the owner's join, close then reconnect, close racing a duplicate, two keys, SendActiveMessage racing a leave / after a leave / to an absent key), each under ALL schedules within the deviation bound (2 quick, 3 thorough); " +
 			"per execution the join/leave/route call-return history is checked for linearizability against a sequential key->connection map with porcupine, refused sockets must be closed, join/leave callbacks are counted, the owner's heartbeats must all be answered. Non-trivial = schedule with >=1 deviation",
 		Assumptions: []string{"call time of join = first read callback of the connection, of leave = its last earlier callback (intervals are enlarged, never shrunk, so no false alarm)",
 			"commands whose caller never returned are C13's subject and are left out of the history"},
